@@ -4,6 +4,7 @@ use super::{
 };
 use crate::schema::{Schema, StoredField, StoredFieldId, TypeId};
 use heck::ToUpperCamelCase;
+use std::collections::BTreeSet;
 
 /// This checks that the `on` clause on fragment spreads and inline fragments
 /// are valid in their context.
@@ -202,13 +203,41 @@ impl Selection {
         }
     }
 
-    pub(crate) fn contains_fragment(&self, fragment_id: ResolvedFragmentId, query: &Query) -> bool {
+    /// Whether this selection reaches a spread of the given fragment, following
+    /// the spreads of other fragments (each of them visited once).
+    pub(crate) fn contains_fragment(
+        &self,
+        fragment_id: ResolvedFragmentId,
+        query: &Query,
+        visited_fragments: &mut BTreeSet<ResolvedFragmentId>,
+    ) -> bool {
         match self {
-            Selection::FragmentSpread(id) => *id == fragment_id,
+            Selection::FragmentSpread(id) => {
+                if *id == fragment_id {
+                    return true;
+                }
+
+                // This is necessary to avoid infinite recursion.
+                if !visited_fragments.insert(*id) {
+                    return false;
+                }
+
+                let fragment = query.get_fragment(*id);
+
+                fragment.selection_set.iter().any(|selection_id| {
+                    query.get_selection(*selection_id).contains_fragment(
+                        fragment_id,
+                        query,
+                        visited_fragments,
+                    )
+                })
+            }
             _ => self.subselection().iter().any(|selection_id| {
-                query
-                    .get_selection(*selection_id)
-                    .contains_fragment(fragment_id, query)
+                query.get_selection(*selection_id).contains_fragment(
+                    fragment_id,
+                    query,
+                    visited_fragments,
+                )
             }),
         }
     }
